@@ -106,13 +106,13 @@ def run(ctx):
            what="outline_child does not encode non-ASCII titles as FE FF followed by big-endian encode_utf16() units (characters above U+FFFF need surrogate pairs)")
     gt = F.fn("Document::get_toc")
     conds = [gt.oname(gt.term(bi)["d"], 5) for bi in range(gt.n) if gt.term(bi)["k"] == "switch"]
-    bomr = any(re.search(r"Eq\(.*index\(&title,0\),254\)", c) for c in conds) and any(re.search(r"Eq\(.*index\(&title,1\),255\)", c) for c in conds)
+    bomr = any(re.search(r"Eq\(.*index\(&?\w+,0\),254\)", c) for c in conds) and any(re.search(r"Eq\(.*index\(&?\w+,1\),255\)", c) for c in conds)
     be = False
     for cl in F.closures_of(gt.path):
         for bi, si, s in cl.stmts():
             if "lhs" in s and s["lhs"]["l"] == 0:
                 t = cl.rvname(s["rv"], 6)
-                if re.match(r"^BitOr\(Shl\(\*x\[0\] as u16,8\),\*x\[1\] as u16\)$", t):
+                if re.match(r"^BitOr\(Shl\(\*?(\w+)\[0\] as u16,8\),\*?\1\[1\] as u16\)$", t):
                     be = True
     ctx.ob(R, "title-decoder", bomr and be, "get_toc tests FE FF and assembles (x[0] << 8) | x[1]", gt.where(), what="get_toc's title decoder no longer mirrors the writer's FE FF / big-endian encoding")
     # sibling links
